@@ -161,6 +161,12 @@ def gen_case(rng, tier, index):
                     (a if fld == "rack_label" else kw)[fld] = val
                 elif kind == "long":
                     (a if fld == "rack_label" else kw)[fld] = text(rng, 33, 40)[:40].ljust(33, "x")
+                    if rng.random() < 0.5:
+                        # the very same text is legal in another role (a liquid class or a comment may be longer than 32
+                        # characters): given in that role in this call, or accepted in that role a moment ago
+                        case["long_seen"] = rng.choice(["same_call", "earlier_call", "earlier_comment"])
+                        if case["long_seen"] == "same_call" and not any(x.startswith("sep:liquid_class") for x in case["faults"]):
+                            kw["liquid_class"] = (a if fld == "rack_label" else kw)[fld]
                 elif kind == "vol":
                     a["volume"] = bad_volume(rng, fld, mx)
                 else:
@@ -223,6 +229,10 @@ def gen_case(rng, tier, index):
                     tgt[fld] = val
                 elif kind == "long":
                     tgt[fld] = text(rng, 33, 40)[:40].ljust(33, "y")
+                    if rng.random() < 0.5:
+                        case["long_seen"] = rng.choice(["same_call", "earlier_call", "earlier_comment"])
+                        if case["long_seen"] == "same_call" and not any(x.startswith("sep:liquid_class") for x in case["faults"]):
+                            kw["liquid_class"] = tgt[fld]
                 elif kind == "vol":
                     kw["volume"] = bad_volume(rng, fld, mx)
                 elif kind == "direction":
@@ -444,6 +454,21 @@ def run_case(ctx, case):
     exc = None
     if case.get("primed") and entry in ("aspirate_well", "dispense_well"):
         _prime(ctx, type(wl), wlc, entry, label_arg, a, kw, case["primed"])
+    if case.get("long_seen") in ("earlier_call", "earlier_comment"):
+        longs = [v for v in list(a.values()) + list(kw.values()) if isinstance(v, str) and len(v) > 32 and ";" not in v]
+        try:
+            other = robotools.BaseWorklist(max_volume=950)
+            for t in longs:
+                if case["long_seen"] == "earlier_call":
+                    other.aspirate_well("rack", 1, 1.0, liquid_class=t)
+                    other.reagent_distribution("S", 1, 8, "D", 1, 8, volume=1.0, liquid_class=t)
+                else:
+                    other.comment(t)
+            ctx.count("over_long_text_was_accepted_in_another_role_before:" + case["long_seen"], len(longs))
+        except Exception:
+            ctx.count("over_long_text_refused_in_the_other_role")
+    elif case.get("long_seen") == "same_call":
+        ctx.count("over_long_text_also_given_as_liquid_class_of_the_call")
     try:
         if entry in ("aspirate_well", "dispense_well"):
             getattr(wl, entry)(label_arg, a["position"], a["volume"], **kw)
